@@ -15,6 +15,7 @@ mod c16;
 mod exec;
 mod fileck;
 mod gen;
+mod live;
 mod model;
 mod ops;
 mod report;
